@@ -93,6 +93,15 @@ class Fn:
         self.assigns = {}
         self.params = set()
         self.ui_errors = set()
+        # names tested with isinstance(name, UIError) in an if whose body uses name.message
+        for n in ast.walk(node):
+            if isinstance(n, ast.If) and isinstance(n.test, ast.Call) and dump(n.test.func) == "isinstance" and len(n.test.args) == 2 \
+                    and isinstance(n.test.args[0], ast.Name) and dump(n.test.args[1]) == "UIError":
+                self.guarded = getattr(self, "guarded", {})
+                for b_ in n.body:
+                    for m in ast.walk(b_):
+                        if isinstance(m, ast.Attribute) and m.attr == "message" and isinstance(m.value, ast.Name) and m.value.id == n.test.args[0].id:
+                            self.guarded[id(m)] = True
         if isinstance(node, (ast.FunctionDef, ast.AsyncFunctionDef)):
             a = node.args
             for p in a.posonlyargs + a.args + a.kwonlyargs + ([a.vararg] if a.vararg else []) + ([a.kwarg] if a.kwarg else []):
@@ -244,6 +253,8 @@ def clean(e, fn, allowed, depth=0):
     if isinstance(e, ast.Call) and isinstance(e.func, ast.Attribute) and e.func.attr == "join" and len(e.args) == 1 and not e.keywords:
         return clean(e.func.value, fn, allowed, depth + 1) and clean_list(e.args[0], fn, allowed, depth + 1)
     if isinstance(e, ast.Attribute) and e.attr == "message" and isinstance(e.value, ast.Name) and e.value.id in fn.ui_errors:
+        return True
+    if isinstance(e, ast.Attribute) and e.attr == "message" and getattr(fn, "guarded", {}).get(id(e)):
         return True
     if isinstance(e, ast.Attribute) and e.attr in LIBC_ATTRS:
         return True
